@@ -139,7 +139,9 @@ def _reader(ctx, F):
         R_ = sp.Rational
         mid = (R_(7, 2) - 9999) / 2
         expect = [(R_(1, 100), sp.nan, R_(3, 2)), (R_(3, 200), sp.nan, R_(5, 2)), (R_(2, 100), R_(5, 2), R_(7, 2)),
-                  (R_(5, 200), R_(7, 2), mid), (R_(3, 100), R_(9, 2), R_(-9999)), (R_(1, 200), sp.nan, sp.nan), (R_(7, 200), sp.nan, sp.nan)]
+                  (R_(5, 200), R_(7, 2), mid), (R_(3, 100), R_(9, 2), R_(-9999)), (R_(1, 200), sp.nan, sp.nan), (R_(7, 200), sp.nan, sp.nan),
+                  # a hair beyond either end (5 parts in a million) is outside the table like anything else beyond it
+                  (R_(3, 100) * (1 + R_(5, 10 ** 6)), sp.nan, sp.nan), (R_(1, 100) * (1 - R_(5, 10 ** 6)), sp.nan, sp.nan)]
         s_sf = fsite(ctx, "xsf.Xray.scattering_factors")
         sf = I.getattr(xr, "scattering_factors")
 
